@@ -113,6 +113,16 @@ func (p *Program) mayBeNil(fn *ssa.Function, v ssa.Value, at ssa.Instruction) bo
 		if isNil(leaf) {
 			return true
 		}
+		// a field or local slot: judge the value that was last stored there
+		if ld, ok := leaf.(*ssa.UnOp); ok && ld.Op == token.MUL {
+			if _, isG := ld.X.(*ssa.Global); !isG {
+				if st := reachingStore(fn, ld); st != nil && st.Val != v {
+					if !p.mayBeNil(fn, st.Val, st) {
+						continue
+					}
+				}
+			}
+		}
 		if g := globalLoad(leaf); g != nil && isErrorType(g.Type().(*types.Pointer).Elem()) && p.initOnlyNonNil(g) {
 			continue
 		}
@@ -134,7 +144,7 @@ func (p *Program) mayBeNil(fn *ssa.Function, v ssa.Value, at ssa.Instruction) bo
 			} else {
 				continue
 			}
-			if sameLocationLoad(fn, other, leaf) {
+			if sameLocationLoad(fn, other, leaf) || p.nonNilSince(fn, other, leaf) {
 				nonNil = true
 				break
 			}
@@ -639,4 +649,56 @@ func ruleR16_4(p *Program, r *Report) {
 	if n == 0 {
 		r.OK("R16.4", "no-nil-store", "-", "no compressor Close drops a destination field")
 	}
+}
+
+// nonNilSince: `tested` is a load of the same location as `leaf`, it was found non-nil, and every write
+// to the location that can execute between the test and leaf stores a non-nil value.
+func (p *Program) nonNilSince(fn *ssa.Function, tested, leaf ssa.Value) bool {
+	ra, sa, oka := fieldLoad(tested)
+	rb, sb, okb := fieldLoad(leaf)
+	if !oka || !okb || ra != rb || sa != sb {
+		return false
+	}
+	ia, _ := tested.(ssa.Instruction)
+	ib, _ := leaf.(ssa.Instruction)
+	if ia == nil || ib == nil || !dominatesInstr(ia, ib) {
+		return false
+	}
+	isTo := func(x ssa.Instruction) bool { return x == ib }
+	for _, b := range fn.Blocks {
+		for _, w := range b.Instrs {
+			if w == ia || w == ib {
+				continue
+			}
+			var val ssa.Value
+			if st, ok := w.(*ssa.Store); ok {
+				r2, s2 := accessPath(st.Addr)
+				if r2 != ra || s2 != sa {
+					continue
+				}
+				val = st.Val
+			} else if c, ok := w.(ssa.CallInstruction); ok {
+				com := c.Common()
+				f := com.StaticCallee()
+				if !(f != nil && f.Signature.Recv() != nil && len(com.Args) > 0 && com.Args[0] == ra) {
+					continue
+				}
+			} else {
+				continue
+			}
+			w := w
+			f1, _, _ := PathQuery{Start: ia, Target: func(x ssa.Instruction) bool { return x == w }, Barrier: isTo}.Find(fn)
+			if !f1 {
+				continue
+			}
+			f2, _, _ := PathQuery{Start: w, Target: isTo}.Find(fn)
+			if !f2 {
+				continue
+			}
+			if val == nil || p.mayBeNil(fn, val, w) {
+				return false
+			}
+		}
+	}
+	return true
 }
